@@ -695,6 +695,24 @@ func decorateHistory(c *Ctx, h *history) {
 			}
 		}
 	}
+	// long sample durations (timescales such as 10 MHz, long-GOP or sparse tracks): one in six histories has durations of
+	// 2^26 .. 2^31, so that the duration of a run (count x duration) does not fit 32 bits while every field still does
+	if r.Intn(6) == 0 {
+		big := uint32(1) << uint(26+r.Intn(6))
+		if r.Intn(2) == 0 {
+			big -= uint32(1 + r.Intn(1000))
+		}
+		for i := range h.frags {
+			for k := range h.frags[i].ops {
+				o := &h.frags[i].ops[k]
+				if o.dur == 3000 {
+					o.dur = big
+				} else {
+					o.dur = big/2 + o.dur
+				}
+			}
+		}
+	}
 	n := 2 + r.Intn(4)
 	seq := make([]byte, n)
 	for k := range seq {
